@@ -322,6 +322,22 @@ theorem Sim.replicate (k : Nat) (t : Text) : Sim (List.replicate (k + 1) ' ' ++ 
   | nil => simp [endFlag_snoc, List.replicate_succ', isBlank_space]
   | cons c cs => rfl
 
+/-- any non-empty run of blanks and tabs counts as one space -/
+theorem Sim.blankRun {r : Text} (hne : r ≠ []) (hb : ∀ c ∈ r, isBlank c = true) : Sim r [' '] := by
+  induction r with
+  | nil => exact absurd rfl hne
+  | cons b r ih =>
+    have h1 : Sim [b] [' '] := by
+      intro l
+      have hb' := hb b List.mem_cons_self
+      rw [condenseLoop_cons_blank hb', condenseLoop_cons_blank isBlank_space]
+      exact ⟨rfl, by simp [hb', isBlank_space]⟩
+    cases r with
+    | nil => exact h1
+    | cons c r' =>
+      have h2 := ih (by simp) (fun d hd => hb d (List.mem_cons_of_mem _ hd))
+      exact (Sim.append h1 h2).trans (Sim.blank2 [])
+
 theorem Sim.condense {a b : Text} (h : Sim a b) : condense a = condense b := by
   rw [condense_eq_strip, condense_eq_strip]; unfold squeeze; rw [(h true).1]
 
@@ -412,6 +428,24 @@ theorem solid_condense (t : Text) : Solid (condense t) := by
   · unfold condense trimBlanks
     have h := endFlag_condenseLoop false (trimRight (trimLeft t))
     rw [endFlag_trimRight] at h; exact h
+
+/-- leading blanks are immaterial -/
+theorem condense_blanks_append {r : Text} (hb : ∀ c ∈ r, isBlank c = true) (t : Text) :
+    condense (r ++ t) = condense t := by
+  induction r with
+  | nil => rfl
+  | cons b r ih =>
+    rw [List.cons_append, condense_cons_blank (hb b List.mem_cons_self)]
+    exact ih (fun d hd => hb d (List.mem_cons_of_mem _ hd))
+
+/-- trailing blanks are immaterial -/
+theorem condense_append_blanks {r : Text} (hb : ∀ c ∈ r, isBlank c = true) (t : Text) :
+    condense (t ++ r) = condense t := by
+  induction r using snoc_induction with
+  | h0 => rw [List.append_nil]
+  | h1 u c ih =>
+    rw [← List.append_assoc, condense_snoc_blank (hb c (by simp))]
+    exact ih (fun d hd => hb d (by simp [hd]))
 
 /-- **idempotence** -/
 theorem condense_idem (t : Text) : condense (condense t) = condense t := by
